@@ -243,6 +243,62 @@ fn run_quorum<S: QuorumSamplingStrategy>(
     evals
 }
 
+/// `DecayingAcceptanceSampler` is stateful between single draws by design, but documents that
+/// `sample_quorum` leaves it "just as it was when it was first created": after any single draws and
+/// one committee, the next committee must be the one a fresh instance returns for the same random
+/// source.
+fn decaying_after_single_draws(case: &Case, ms: f64, scripts: &[(u64, Vec<(usize, u64)>)], report: &Report) -> usize {
+    let n = case.validators.len();
+    let keyctx = format!("{}:n{}:{}:k{}", case.strategy, n, case.fam.replace(' ', ""), case.k);
+    let mut evals = 0;
+    for draws in [1usize, 2] {
+        for via in ["sample", "sample_info", "sample_one"] {
+            // the single draws and the first committee together must fit under the seat caps,
+            // otherwise the first committee cannot be formed at all (and nothing is promised)
+            if draws + case.k > n * ms.floor() as usize {
+                continue;
+            }
+            for (seed, ov) in scripts.iter().take(3) {
+                evals += 1;
+                let replay = json!({"strategy": case.strategy, "n": n, "stakes": case.fam, "k": case.k, "seed": seed, "overrides": ov, "single_draws_before": draws, "via": via});
+                let r = catch(std::panic::AssertUnwindSafe(|| {
+                    let a = DecayingAcceptanceSampler::new(case.validators.to_vec(), ms, case.k);
+                    let fresh = DecayingAcceptanceSampler::new(case.validators.to_vec(), ms, case.k);
+                    let mut rng = ScriptRng::new(seed ^ 0x5151, Vec::new());
+                    for _ in 0..draws {
+                        match via {
+                            "sample" => { let _ = a.sample(&mut rng); }
+                            "sample_info" => { let _ = a.sample_info(&mut rng); }
+                            _ => { let _ = a.sample_one(&mut rng); }
+                        }
+                    }
+                    // this committee may legitimately reflect the single draws; it only has to exist
+                    let first = catch(std::panic::AssertUnwindSafe(|| a.sample_quorum(&mut ScriptRng::new(seed ^ 0x77, Vec::new()))));
+                    if first.is_err() {
+                        return (false, Vec::new(), Vec::new());
+                    }
+                    let x = a.sample_quorum(&mut ScriptRng::new(*seed, ov.clone()));
+                    let y = fresh.sample_quorum(&mut ScriptRng::new(*seed, ov.clone()));
+                    (true, x, y)
+                }));
+                match r {
+                    Err(msg) => report.violation(format!("C17:sampling-panics-after-single-draws:{keyctx}"), format!("{:.120}", msg), replay),
+                    Ok((_, x, y)) => {
+                        if x != y {
+                            report.violation(
+                                format!("C17:committee-depends-on-draws-before-the-previous-committee:{keyctx}"),
+                                format!("n={n} stakes {} k={}: after {draws} single draw(s) via {via}() and one committee, the next committee is {x:?}; a fresh instance returns {y:?} for the same random source", case.fam, case.k),
+                                replay,
+                            );
+                        }
+                    }
+                }
+            }
+        }
+    }
+    evals
+}
+
 /// Every outcome of a single draw of `StakeWeightedSampler` (the sampler underneath all random
 /// phases), for every small weight vector with zeros anywhere: the random word is scripted so that
 /// each of the `total` units is hit once. A zero-weight validator must never be returned, and each
@@ -334,6 +390,9 @@ pub fn run(tier: Tier) -> i32 {
                 let capn = ms.ceil() as usize;
                 if *k <= *n * (ms.floor() as usize) {
                     add(label, run_quorum(&mk(label), || DecayingAcceptanceSampler::new(vals.to_vec(), ms, *k), sc, &report, false, Some(capn), &samples));
+                    if *n <= 12 {
+                        add(label, decaying_after_single_draws(&mk(label), ms, sc, &report));
+                    }
                 }
             }
             if *n <= 16 {
